@@ -150,6 +150,45 @@ func short(p proto.Message) string {
 	return s
 }
 
+// lineDiff renders both messages as multi-line text and returns the lines
+// that occur only on one side.
+func lineDiff(w, g proto.Message) (onlyW, onlyG []string) {
+	lines := func(m proto.Message) []string {
+		var out []string
+		for _, l := range strings.Split(prototext.MarshalOptions{Multiline: true}.Format(m), "\n") {
+			l = strings.Join(strings.Fields(l), " ")
+			if l != "" && l != "}" {
+				out = append(out, l)
+			}
+		}
+		return out
+	}
+	wl, gl := lines(w), lines(g)
+	cnt := map[string]int{}
+	for _, l := range gl {
+		cnt[l]++
+	}
+	for _, l := range wl {
+		if cnt[l] > 0 {
+			cnt[l]--
+		} else {
+			onlyW = append(onlyW, l)
+		}
+	}
+	cnt = map[string]int{}
+	for _, l := range wl {
+		cnt[l]++
+	}
+	for _, l := range gl {
+		if cnt[l] > 0 {
+			cnt[l]--
+		} else {
+			onlyG = append(onlyG, l)
+		}
+	}
+	return
+}
+
 // Diff describes how got differs from want (empty = equal).
 func Diff(want, got State) []string {
 	var out []string
@@ -172,7 +211,8 @@ func Diff(want, got State) []string {
 		case !wok && gok:
 			out = append(out, fmt.Sprintf("unexpected %s (got %s)", k, short(g)))
 		case !proto.Equal(w, g):
-			out = append(out, fmt.Sprintf("payload of %s differs: want {%s} got {%s}", k, short(w), short(g)))
+			wo, gonly := lineDiff(w, g)
+			out = append(out, fmt.Sprintf("payload of %s differs: only in want %q, only in got %q; want {%s} got {%s}", k, wo, gonly, short(w), short(g)))
 		}
 	}
 	return out
